@@ -1,6 +1,7 @@
 package treeset
 
 import (
+	"strings"
 	"encoding/json"
 	"github.com/emirpasic/gods/v2/sets"
 	"github.com/emirpasic/gods/v2/containers"
@@ -157,4 +158,13 @@ func VHJSONRound() {
 func VHJSONLoad() {
 	c := VGSmall()
 	containers.VJSONLoad(vJSON(c))
+}
+
+// VHString: String() begins with the container's name and is read-only (C15, C18).
+func VHString() {
+	c := VGSmall()
+	v.BeginOp(true, c)
+	s := c.String()
+	v.EndOp()
+	v.Assert(strings.HasPrefix(s, "TreeSet"), "C15:string-begins-with-container-name")
 }
